@@ -54,16 +54,26 @@ def typeorder(t1, t2):
     if t1 == t2:
         return Order.SAME
 
-    if (
-        hasattr(t1, "__type_order__")
-        and (result := t1.__type_order__(t2)) is not NotImplemented
-    ):
+    # Both types are consulted, so that the answer does not depend on the
+    # order in which they are given
+    result = reflected = NotImplemented
+    if hasattr(t1, "__type_order__"):
+        result = t1.__type_order__(t2)
+    if hasattr(t2, "__type_order__"):
+        reflected = t2.__type_order__(t1)
+        if reflected is not NotImplemented:
+            reflected = reflected.opposite()
+    if result is NotImplemented or result is reflected:
+        result = reflected
+    elif reflected is not NotImplemented:
+        # They disagree: trust the one that knows how to compare itself to
+        # the other, if only one of them does
+        if result is Order.NONE:
+            result = reflected
+        elif reflected is not Order.NONE:
+            result = Order.NONE
+    if result is not NotImplemented:
         return result
-    elif (
-        hasattr(t2, "__type_order__")
-        and (result := t2.__type_order__(t1)) is not NotImplemented
-    ):
-        return result.opposite()
 
     o1 = get_origin(t1)
     o2 = get_origin(t2)
